@@ -98,7 +98,10 @@ def c12_1(ctx: Ctx) -> RuleResult:
     for g in upd:
         for caller, call_ in ctx.cg.callers(g):
             ct = X.at(caller, call_)
-            inc = ct[2][0] if ct[2] else None
+            from ..callgraph import positional_args
+
+            pa = positional_args(g, ct)
+            inc = pa[0] if pa else None
             if inc is None:
                 continue
             ok, why = False, f"the incumbent passed to {g.name} is `{show(inc, 60)}`"
@@ -203,19 +206,26 @@ def c12_3(ctx: Ctx) -> RuleResult:
     res.add(f, f.node, "a result violates iff any violation > tolerance (strictly)", ok, "" if ok else f"comparison is {[show(c, 50) for c in cmps if tol in (c[2], c[3])]}", construct=f"{f.name}: comparator")
     anyred = any(t[0] == "call" and t[1] == G("numpy.any") for n in nodes_in(f, ast.Call) for t in [norm(X.at(f, n))])
     res.add(f, f.node, "any single violating entry makes the result infeasible (np.any)", anyred, "" if anyred else "not reduced with any()", construct=f"{f.name}: any")
-    none_ok = any(isinstance(n.test, ast.Compare) and "tolerance" in ast.unparse(n.test) and "None" in ast.unparse(n.test) and isinstance(n.body[0], ast.Return) and isinstance(n.body[0].value, ast.Constant) and n.body[0].value.value is False for n in nodes_in(f, ast.If))
+    # the conditions under which a violation is compared with the tolerance at all: the tolerance is not None
+    # (None switches the test off) and nothing else about its value (a truthiness test would also switch the test
+    # off for a tolerance of 0.0); other quantities may only be tested for presence (`is None`), type or the comparison itself
+    from ..util import _enclosing_conds
+
+    sites = [n for n in nodes_in(f, ast.Compare) if tol in (lambda t_: (t_[2], t_[3]) if t_[0] == "cmp" and t_[1] in ("<", "<=", ">", ">=") else ())(norm(X.at(f, n)))]
+    none_ok, early = bool(sites), []
+    for n in sites:
+        st_ = n
+        while parent(st_) is not None and not isinstance(st_, ast.stmt):
+            st_ = parent(st_)
+        lits = _conj_literals(ctx, f, st_) + [(a_, p_) for a_, p_ in _enclosing_conds(ctx, f, n)]
+        if not any(a_[0] == "cmp" and a_[1] in ("is", "is not") and a_[2] == tol and a_[3] == C(None) and (p_ == (a_[1] == "is not")) for a_, p_ in lits):
+            none_ok = False
+        for a_, p_ in lits:
+            if a_[0] in ("param", "attr", "local") or (a_[0] == "call" and a_[1] == ("builtin", "bool")):
+                early.append((n, a_))
     res.add(f, f.node, "tolerance None disables the feasibility test", none_ok, "" if none_ok else "None tolerance not handled", construct=f"{f.name}: None tolerance")
-    # ... and only None does: every early `return False` is guarded by an identity test with None
-    # (a truthiness test would also switch the test off for tolerance 0.0)
-    early = []
-    for n in nodes_in(f, ast.If):
-        if n.body and isinstance(n.body[0], ast.Return) and isinstance(n.body[0].value, ast.Constant) and n.body[0].value.value is False:
-            t = n.test
-            is_none_test = isinstance(t, ast.Compare) and len(t.ops) == 1 and isinstance(t.ops[0], ast.Is) and isinstance(t.comparators[0], ast.Constant) and t.comparators[0].value is None
-            if not is_none_test:
-                early.append(n)
-    res.add(f, early[0] if early else f.node, "the test is skipped only when a quantity `is None` (tolerance 0.0 means strict feasibility)", not early,
-            "" if not early else f"`if {ast.unparse(early[0].test)}: return False` also disables the feasibility test for falsy values such as a tolerance of 0.0",
+    res.add(f, early[0][0] if early else f.node, "the test is skipped only when a quantity `is None` (tolerance 0.0 means strict feasibility)", not early,
+            "" if not early else f"the comparison runs only if `{show(early[0][1], 50)}` is truthy: this also disables the feasibility test for falsy values such as a tolerance of 0.0",
             construct=f"{f.name}: only None disables")
     # callers pass the transformed item
     for caller, c in ctx.cg.callers(f):
@@ -370,9 +380,14 @@ def c12_5(ctx: Ctx) -> RuleResult:
             ok = False
             for lp in nodes_in(f, ast.For):
                 for call_ in [x for b in lp.body for x in ast.walk(b) if isinstance(x, ast.Call)]:
-                    if not any(g in cmp_funcs for g in ctx.cg.callees_of_call(f, call_)) or not call_.args or not isinstance(call_.args[0], ast.Name):
+                    tg_ = [g for g in ctx.cg.callees_of_call(f, call_) if g in cmp_funcs]
+                    if not tg_:
                         continue
-                    inc = call_.args[0].id
+                    # the incumbent argument: bound to the first parameter, by position or by keyword
+                    arg0 = call_.args[0] if call_.args else next((k.value for k in call_.keywords if tg_[0].positional and k.arg == tg_[0].positional[0]), None)
+                    if not isinstance(arg0, ast.Name):
+                        continue
+                    inc = arg0.id
                     if any(isinstance(n, ast.Assign) and any(isinstance(t, ast.Name) and t.id == inc for t in n.targets) for b in lp.body for n in ast.walk(b)):
                         ok = True
                 # the comparison written out in the loop itself: the incumbent parameter is re-bound in the loop
@@ -423,11 +438,22 @@ def c12_6(ctx: Ctx) -> RuleResult:
     res.add(run, trk[0][1] if trk else run.node, "the configured constraint tolerance is handed to the tracker", ok, construct="BasicOptimizer: tolerance")
     # .variables: the `variables=` of the stored record derives from <results>.evaluations.variables
     NONE_ = ("const", None)
-    recs = [t for _f, _c, t in calls if t[0] == "call" and dict(t[3]).get("variables") is not None and dict(t[3]).get("results") is not None]
-    live = [t for t in recs if not (dict(t[3])["variables"] == NONE_ and dict(t[3])["results"] == NONE_)]
+    def rec_args(t):
+        """keyword view of a record construction: positional arguments of a (data)class call are named by field order"""
+        kw = dict(t[3])
+        if t[1][0] == "global" and t[1][1] in ctx.repo.classes and t[2]:
+            names = list(ctx.repo.classes[t[1][1]].fields)
+            for i_, a_ in enumerate(t[2]):
+                if i_ < len(names):
+                    kw.setdefault(names[i_], a_)
+        return kw
+
+    recs = [rec_args(t) for _f, _c, t in calls if t[0] == "call"]
+    recs = [kw for kw in recs if kw.get("variables") is not None and kw.get("results") is not None]
+    live = [kw for kw in recs if not (kw["variables"] == NONE_ and kw["results"] == NONE_)]
     ok = bool(live) and all(
-        contains(dict(t[3])["variables"], lambda s_, t=t: s_[0] == "attr" and ends_with_attrs(s_, "evaluations", "variables") and contains(s_, lambda y: y == dict(t[3])["results"]))
-        for t in live)
+        contains(kw["variables"], lambda s_, kw=kw: s_[0] == "attr" and ends_with_attrs(s_, "evaluations", "variables") and contains(s_, lambda y: y == kw["results"]))
+        for kw in live)
     res.add(run, run.node, ".variables are the tracked result's variables", ok, construct="BasicOptimizer: variables")
     res.floor = 4
     return res
